@@ -13,6 +13,9 @@ PLAN = {
         "RwLock is a lock",
         "K: Hashable returns a hash consistent with Eq (for metrics::Key: property C03)",
     ],
+    "witnesses": [
+        {"match": r"fn clear", "name": "impl Registry :: fn clear", "src": "witness_clear.rs", "crate": "metrics-util", "file": "metrics-util/src/registry/mod.rs"},
+    ],
     "verus": [
         {"template": "registry.verus.rs", "tier": "quick", "rlimit": 50, "min_functions": 13},
     ],
